@@ -1,7 +1,87 @@
-(* family 15: stub, to be filled *)
+(* family 15: PDU factory and holder (spacepackets/cfdp/pdu/helper.py). *)
 From Coq Require Import ZArith List Bool.
-From SP Require Import Base.Result Base.Bytes Run.Marshal.
+From SP Require Import Base.Result Base.Bytes Run.Marshal Model.PduHeader Model.FileDirective Model.Factory.
+From SP Require Run.DispHdr Run.DispFileData Run.DispPduA Run.DispPduB Run.DispPduC.
 Import ListNotations.
 Open Scope Z_scope.
 
-Definition run_factory (op : Z) (a : args) : args := [[1; 97]].
+(* a generic PDU on a result line: [class index] then the fields of that class as the class's
+   own family marshals them *)
+Definition pdu_fields (p : pdu) : args :=
+  [pdu_kind p] ::
+  match p with
+  | PFileData q => DispFileData.fd_fields q
+  | PEof q => DispPduA.eof_fields q
+  | PFinished q => DispPduB.fin_fields q
+  | PAck q => DispPduA.ack_fields q
+  | PMetadata q => DispPduB.md_fields q
+  | PNak q => DispPduC.nak_fields q
+  | PPrompt q => DispPduA.prompt_fields q
+  | PKeepAlive q => DispPduA.ka_fields q
+  end.
+
+Definition opt_pdu_fields (o : option pdu) : args :=
+  match o with None => [[-1]] | Some p => pdu_fields p end.
+
+Definition opt_z (o : option Z) : list Z := match o with None => [0] | Some t => [1; t] end.
+
+Definition res_bytes (r : res bytes) : list Z :=
+  match r with Ok b => 0 :: b | Err e => [1; err_code e] end.
+Definition res_bool (r : res bool) : list Z :=
+  match r with Ok b => [0; b2z b] | Err e => [1; err_code e] end.
+
+(* the constructor of class k applied to a case line in the format of that class's family *)
+Definition pdu_of_args (k : Z) (a : args) : res pdu :=
+  if k =? 0 then do r <- DispFileData.fd_of_args a; Ok (PFileData (fst r))
+  else if k =? 1 then do r <- DispPduA.eof_of_args a; Ok (PEof (fst r))
+  else if k =? 2 then do r <- DispPduB.fin_of_args a; Ok (PFinished (fst (fst r)))
+  else if k =? 3 then do r <- DispPduA.ack_of_args a; Ok (PAck (fst r))
+  else if k =? 4 then do r <- DispPduB.md_of_args a; Ok (PMetadata (fst (fst r)))
+  else if k =? 5 then do r <- DispPduC.nak_of_args a; Ok (PNak (fst r))
+  else if k =? 6 then do r <- DispPduA.prompt_of_args a; Ok (PPrompt (fst r))
+  else if k =? 7 then do r <- DispPduA.ka_of_args a; Ok (PKeepAlive (fst r))
+  else Err EOther.
+
+Definition holder_inspect (h : holder) : res args :=
+  do t <- holder_pdu_type h;
+  do b <- holder_is_file_directive h;
+  do d <- holder_pdu_directive_type h;
+  Ok [[t]; [b2z b]; opt_z d].
+
+Definition run_factory (op : Z) (a : args) : args :=
+  match op with
+  (* PduFactory.from_raw(data) *)
+  | 1500 => ret opt_pdu_fields (fac_from_raw (lst 0 a))
+  (* PduFactory.pdu_type(data) *)
+  | 1501 => ret (fun t => [[t]]) (fac_pdu_type (lst 0 a))
+  (* PduFactory.is_file_directive(data) *)
+  | 1502 => ret (fun b => [[b2z b]]) (fac_is_file_directive (lst 0 a))
+  (* PduFactory.pdu_directive_type(data) *)
+  | 1503 => ret (fun o => [opt_z o]) (fac_pdu_directive_type (lst 0 a))
+  (* PduFactory.from_raw_to_holder(data).to_<class k>_pdu() *)
+  | 1504 => ret pdu_fields (do h <- fac_from_raw_to_holder (lst 0 a); holder_to (int 1 0 a) h)
+  (* holder = from_raw_to_holder(data): pack(), packet_len *)
+  | 1505 => ret (fun h => [res_bytes (holder_pack h); [holder_packet_len h]]) (fac_from_raw_to_holder (lst 0 a))
+  (* holder = from_raw_to_holder(data): pdu_type, is_file_directive, pdu_directive_type *)
+  | 1506 => ret (fun r => r) (do h <- fac_from_raw_to_holder (lst 0 a); holder_inspect h)
+  (* PduHolder(<class j>.unpack(data)).to_<class k>_pdu() *)
+  | 1507 => ret pdu_fields (do p <- unpack_as (int 1 0 a) (lst 0 a); holder_to (int 2 0 a) (Some p))
+  (* PduHolder(<class j>.unpack(data)): pdu_type, is_file_directive, pdu_directive_type, packet_len *)
+  | 1508 => ret (fun r => r) (do p <- unpack_as (int 1 0 a) (lst 0 a);
+                              do r <- holder_inspect (Some p); Ok (r ++ [[holder_packet_len (Some p)]]))
+  (* PduHolder(None): to_<class k>_pdu() *)
+  | 1509 => ret pdu_fields (holder_to (int 0 0 a) None)
+  | _ =>
+    (* 1510 + k: p = <class k>(args); b = p.pack(); p2 = PduFactory.from_raw(b):
+       class index of p2, p2 == p, p2.pack(), b *)
+    if (1510 <=? op) && (op <=? 1517) then
+      ret (fun r => r)
+        (do p <- pdu_of_args (op - 1510) a;
+         do b <- pdu_pack p;
+         do o <- fac_from_raw b;
+         match o with
+         | None => Ok [[-1]]
+         | Some p2 => Ok [[pdu_kind p2]; res_bool (pdu_eqb p2 p); res_bytes (pdu_pack p2); b]
+         end)
+    else [[1; 97]]
+  end.
